@@ -1,5 +1,5 @@
 (* C65  Lemmas about the executor dispatch model (Disc/ExecutorModel.v). *)
-From Coq Require Import List ZArith Bool Arith Lia.
+From Coq Require Import List ZArith Bool Arith Lia Permutation.
 From PLV Require Import Disc.ExecutorModel.
 Import ListNotations.
 Open Scope Z_scope.
@@ -69,6 +69,11 @@ Qed.
 Lemma covers_permutation perm n : (forall i, In i (seq 0 n) -> In i perm) -> covers perm n.
 Proof. intros H i Hi. apply H. apply in_seq. lia. Qed.
 
+Lemma permutation_covers perm n : Permutation (seq 0 n) perm -> covers perm n.
+Proof.
+  intros H. apply covers_permutation. intros i Hi. exact (Permutation_in i H Hi).
+Qed.
+
 (* ------------------------------------------------------------------ zip *)
 Lemma fold_min_const (ls : list nat) (n : nat) :
   (forall x, In x ls -> x = n) -> fold_left Nat.min ls n = n.
@@ -115,14 +120,16 @@ Proof.
     - intros x Hx. rewrite Hcols in Hx. apply in_map_iff in Hx. destruct Hx as [j [<- _]].
       apply map_length. }
   unfold zipn at 1. rewrite Hml.
-  rewrite <- (map_seq_nth_id [] rows) at 2.
+  transitivity (map (fun i => nth i rows []) (seq 0 (length rows))); [|apply map_seq_nth_id].
   apply map_ext_in. intros i Hi. apply in_seq in Hi.
   rewrite Hcols, map_map.
   assert (Hlen : length (nth i rows []) = length r0).
   { apply Hall. apply nth_In. lia. }
-  rewrite <- (map_seq_nth_id d (nth i rows [])) at 2. rewrite Hlen.
+  transitivity (map (fun j => nth j (nth i rows []) d) (seq 0 (length (nth i rows []))));
+    [|apply map_seq_nth_id].
+  rewrite Hlen.
   apply map_ext_in. intros j _.
-  apply nth_map_lt. lia.
+  apply (nth_map_lt (fun r : list A => nth j r d) rows i d []). lia.
 Qed.
 
 (* ------------------------------------------------------------------ submit *)
@@ -176,7 +183,7 @@ Proof.
       rewrite Hlt. unfold native_map_gen. inversion Hit; subst it0 r0.
       cbn [cfg_of map_unpack length]. rewrite Hq. unfold be_map.
       rewrite pool_eval_spec.
-      * rewrite spec_map_cons, zipn_single, map_map. reflexivity.
+      * rewrite spec_map_cons, zipn_single, !map_map. reflexivity.
       * rewrite map_length. cbn in Hc. exact Hc.
 Qed.
 
